@@ -441,7 +441,8 @@ func intToValue(i int64) Value {
 	if i >= -maxInt && i <= maxInt {
 		return valueInt(i)
 	}
-	return valueFloat(i)
+	// ±(2^53+1) round to ±2^53, which must be represented as an integer again
+	return floatToValue(float64(i))
 }
 
 func floatToInt(f float64) (result int64, ok bool) {
@@ -1691,11 +1692,11 @@ func (_neg) exec(vm *vm) {
 			result = -n
 		}
 	default:
-		f := operand.ToFloat()
+		f := n.ToFloat()
 		if !math.IsNaN(f) {
 			f = -f
 		}
-		result = valueFloat(f)
+		result = floatToValue(f)
 	}
 
 	vm.stack[vm.sp-1] = result
@@ -1724,7 +1725,7 @@ func (_inc) exec(vm *vm) {
 	case valueInt:
 		v = intToValue(int64(n + 1))
 	default:
-		v = valueFloat(n.ToFloat() + 1)
+		v = floatToValue(n.ToFloat() + 1)
 	}
 
 	vm.stack[vm.sp-1] = v
@@ -1744,7 +1745,7 @@ func (_dec) exec(vm *vm) {
 	case valueInt:
 		v = intToValue(int64(n - 1))
 	default:
-		v = valueFloat(n.ToFloat() - 1)
+		v = floatToValue(n.ToFloat() - 1)
 	}
 
 	vm.stack[vm.sp-1] = v
